@@ -107,7 +107,7 @@ structure Stream where
   pos : Nat
 deriving Repr
 
-inductive Exc | valueError | osError | unicodeDecodeError
+inductive Exc | valueError | osError | unicodeDecodeError | indexError
 deriving DecidableEq, Repr
 
 /-- `stream.seek(off, whence)`: a `BytesIO` raises `ValueError` for a negative absolute offset and clamps a
@@ -403,8 +403,9 @@ inductive Trace
   | text (chunks : List Bytes) (typeOk : Bool) (astext : Option Text)
   /-- chunks, is the type `application/json`, `json.loads(bytes) == data` -/
   | json (chunks : List Bytes) (typeOk : Bool) (loadsOk : Bool)
-  /-- `iter_text()` pieces (none = raised), the exception if any, and the whole-string decode -/
-  | decode (pieces : Option (List Text)) (err : Option Exc) (whole : Option Text)
+  /-- `as_text()` (none = raised) with its exception; `iter_text()` pieces (none = raised) with its exception; and the
+  whole-string decode of the joined bytes -/
+  | decode (astext : Option Text) (aerr : Option Exc) (pieces : Option (List Text)) (err : Option Exc) (whole : Option Text)
   | stream (evs : List Ev)
   | ctype (rendered : Text) (parsed : Parsed)
   | ctypeSeq (rs : List (Text × Parsed))
@@ -421,6 +422,10 @@ def hasEncodedWordStart : Text → Bool
 def charsetComma (ct : CT) : Bool := ct.params.any fun p => p.1 == charsetName && p.2.contains chComma
 def valueCRLF (ct : CT) : Bool := ct.params.any fun p => p.2.any lineBreak
 def valueEncodedWord (ct : CT) : Bool := ct.params.any fun p => hasEncodedWordStart p.2
+/-- a parameter NAME that is not a lower-case token without `*`, `'`, `%`: the `email` parser folds the case of names and reads
+`*`, `'`, `%` as RFC 2231 syntax, so such a name does not come back (upper case: faithfully modelled by `lower`; RFC 2231
+characters: not modelled, soft correspondence) -/
+def nameNotLowerToken (ct : CT) : Bool := ct.params.any fun p => !isToken p.1
 
 
 /-! ## the domain the property quantifies over (enforced by the input codec) -/
@@ -443,11 +448,20 @@ def CT.lowered (ct : CT) : CT :=
 def CT.wfU (ct : CT) : Bool :=
   isTokenU ct.type && isTokenU ct.subtype && ct.params.all (fun p => isTokenU p.1) && !hasDupNames ct.lowered.params
 
+/-- RFC 2045 token characters in either case, the RFC 2231 markers included -/
+def tokenCharAny (c : Nat) : Bool := tokenCharU c || c == 42 || c == 39 || c == 37
+def isTokenAny (s : Text) : Bool := !s.isEmpty && s.all tokenCharAny
+
+/-- the domain of the content-type round trip as the property states it: lower-case token type and subtype; parameter names any
+(distinct) tokens; values anything -/
+def CT.wfWide (ct : CT) : Bool :=
+  isToken ct.type && isToken ct.subtype && ct.params.all (fun p => isTokenAny p.1) && !hasDupNames ct.params
+
 def Input.wf : Input → Bool
   | .text s => s.all validCp
   | .json d => d.all validCp
   | .stream i => i.wf
-  | .ctype ct => ct.wf
+  | .ctype ct => ct.wfWide
   | .ctypeSeq cts => cts.all CT.wfU
   | _ => true
 
@@ -457,8 +471,11 @@ def decodeModel (isText : Bool) (cs : Charset) (chunks : List Bytes) (whole : Op
     | .utf8 => (iterText utf8 chunks, decodeAll utf8 chunks.flatten)
     | .ascii => (iterText ascii chunks, decodeAll ascii chunks.flatten)
     | .opaque => (whole.map fun w => [w], whole)     -- pieces are not compared for opaque codecs
-  if !isText then .decode none (some .valueError) r.2      -- `iter_text` refuses a non-text type
-  else .decode r.1 (if r.1.isNone then some .unicodeDecodeError else none) r.2
+  -- `as_text()` joins the bytes and decodes them in one go (so it cannot depend on the chunking, whatever the codec);
+  -- `iter_text()` feeds an incremental decoder chunk by chunk.  Both refuse a non-text type.
+  if !isText then .decode none (some .valueError) none (some .valueError) r.2
+  else .decode r.2 (if r.2.isNone then some .unicodeDecodeError else none)
+         r.1 (if r.1.isNone then some .unicodeDecodeError else none) r.2
 
 /-- the rendering and what parsing it gives (parameters in canonical order) -/
 def ctypePair (ct : CT) : Text × Parsed :=
